@@ -15,12 +15,13 @@ import sys
 
 PID, K = sys.argv[1], sys.argv[2]
 NO_TESTS = "--no-tests" in sys.argv
-OUT = "/tmp/seed/%s.out" % PID
+ROUND = "2" if "--round2" in sys.argv else "1"
+OUT = ("/tmp/seed2/%s.out" if ROUND == "2" else "/tmp/seed/%s.out") % PID
 patch = os.path.join(OUT, "patch_%s.diff" % K)
 demo = os.path.join(OUT, "demo_%s.py" % K)
-wt = "/tmp/confirm/%s_%s" % (PID, K)
+wt = "/tmp/confirm/r%s_%s_%s" % (ROUND, PID, K)
 home = wt + ".home"
-res = dict(pid=PID, k=K)
+res = dict(pid=PID, k=K, round=ROUND)
 
 
 def sh(cmd, **kw):
@@ -38,6 +39,8 @@ try:
     d0 = subprocess.run(["/venv/bin/python", "-W", "ignore", demo], cwd=wt, env=env, capture_output=True, text=True, timeout=1800)
     res["demo_clean_exit"] = d0.returncode
     a = sh("git -C %s apply --whitespace=nowarn %s" % (wt, patch))
+    if a.returncode != 0:
+        a = sh("git -C %s apply -3 --whitespace=nowarn %s" % (wt, patch))
     if a.returncode != 0:
         a = sh("cd %s && patch -p1 < %s" % (wt, patch))
     res["patch_applies"] = a.returncode == 0
@@ -69,5 +72,5 @@ finally:
     sh("git -C /repo worktree remove --force %s" % wt)
     for d in (wt, home, wt + ".cache", wt + ".evidence"):
         shutil.rmtree(d, ignore_errors=True)
-json.dump(res, open("/tmp/confirm/%s_%s.json" % (PID, K), "w"), indent=1)
+json.dump(res, open("/tmp/confirm/r%s_%s_%s.json" % (ROUND, PID, K), "w"), indent=1)
 print(json.dumps({k: v for k, v in res.items() if k not in ("checks", "tests_tail", "demo_patched_tail")}, indent=1))
